@@ -194,6 +194,16 @@ def structures(rng):
     m2 = gen.transform(m1, t=(0.4, -0.3, 0.2))
     out.append(("two-models-8-9", rows_from(m1, model=8) + rows_from(m2, model=9, start_id=len(m1) + 1)))
     out.append(("two-models-9-10", rows_from(m1, model=9) + rows_from(m2, model=10, start_id=len(m1) + 1)))
+    # nucleic acids with hydrogens: names with primes and doubled primes (H5', H5'', H2'')
+    out.append(("dna-with-hydrogens", rows_from(gen.nucleic("ATG", "D", hydrogens=True))))
+    out.append(("rna-with-hydrogens", rows_from(gen.nucleic("GU", "R", hydrogens=True))))
+    # serial numbers that do not follow the record order (a segment appended without renumbering)
+    pep8 = gen.peptide(["ALA", "SER", "LYS", "GLY", "ASP", "VAL"])
+    rows8 = rows_from(pep8)
+    nfirst = sum(1 for a in pep8 if a["res_index"] < 2)
+    for k, r_ in enumerate(rows8):
+        r_["id"] = str(k + 1 + (len(rows8) if k < nfirst else -nfirst))      # the first two residues carry the highest serials
+    out.append(("serials-not-monotonic", rows8))
     # a residue of the chain recorded as HETATM, with ATOM rows after it (file order must be kept)
     het = []
     for a in gen.peptide(["ALA", "SER", "LYS", "GLY", "ASP"]):
